@@ -134,6 +134,16 @@ def exit_checks(E, st, kind, retval, is_drop_root=False):
                 '; '.join('%s: %s' % p for p in probs) + ' [%s]' % ms.describe(),
                 'refuted', sample='%s %s' % (mid, ms.describe()))
     # handle invariants
+    if is_drop_root and not unw:
+        # the owning handle is gone after this call: whatever it still owned -- whether or not its cursor
+        # has passed over it -- must have been destroyed or moved out
+        for mid, ms in st.maps.items():
+            if ms.owned_extras and not ms.dead and not slots.empty(st.zone, ms.extra_rng):
+                E.oblig('HANDLE-DROP', False, 'Drop::drop',
+                        'the owning handle is destroyed while elements it owns are still live: %s' % ms.describe(),
+                        'unproven', sample=ms.describe())
+                ms.extra_rng = (0, 0)
+                ms.owned_extras = False
     for v in its:
         _, mid, fr, bk, mut = v
         ms = st.maps[mid]
@@ -187,6 +197,13 @@ def run_root(E, body, contract=None):
             rr.subjects = specs.subjects_of(E, st, args)
             rr.st0 = st.fork()
         E.root_entry = (list(args), rr.st0 if rr.st0 is not None else st.fork())
+        from . import specs as _specs
+        ap = _specs.ASKED_ONCE.get(_specs.root_key(body))
+        E.asked_props = ap
+        if ap:
+            for ms in st.maps.values():
+                if ms.borrowed and not ms.phantom:
+                    ms.asked = ((0, 0),)
         if contract in ('not-full', 'no-append'):
             for ms in st.maps.values():
                 if ms.borrowed and not ms.phantom:
